@@ -110,7 +110,7 @@ CLAIMS = {
    text="Static analysis: the two gate placements are compared as data (same signal, same constant, comparators complementary over the integers around the constant, copy-count, same output); "
         "typestate of the enable in the lowerer (every signal-valued enable is retyped to the gates' signal; the two constant-one recognisers agree; the enable sinks on both gates; the signal "
         "is reserved and excluded from allocation); the two explicit wires and the planner's colour locks agree; reads are sourced by the hold gate; gate keys are read by the configurator; "
-        "both optimizers re-point both operands of a memory write. NOT decided: holding across an enable edge, one-tick glitches, arbitrary data expressions, readers not disturbing the value. Also: only node classes placed with an output signal of their own are retyped in place (a memory read is not), the feedback rewrite touches reads of its own cell only. A constant-one reference is exempt from retyping only on the enable signal. Only a constant-output decider is retyped in place as the enable (exact class, no pass-through gate); CSE tells reads of different cells apart (R14).",
+        "both optimizers re-point both operands of a memory write. NOT decided: holding across an enable edge, one-tick glitches, arbitrary data expressions, readers not disturbing the value. Also: only node classes placed with an output signal of their own are retyped in place (a memory read is not), the feedback rewrite touches reads of its own cell only. A constant-one reference is exempt from retyping only on the enable signal. Only a constant-output decider is retyped in place as the enable (exact class, no pass-through gate); CSE tells reads of different cells apart (R14). Known finding: the hold gate's output is pinned to one colour, two cells on one signal read together collide (R15).",
    technique="table semantics over placement literals + CFG typestate + colour agreement + bag-key agreement + IR-schema slots",
    ref="DESIGN.md §2 C03"),
  "C04": dict(
@@ -151,7 +151,7 @@ CLAIMS = {
         "anything for any(), identical in the lowerer and in the inlined entity condition); the separation flag is set wherever a signal-valued scalar/condition meets a bundle, forwarded by "
         "the placer for both node kinds, consumed by the planner which locks one input to the non-default colour, and the wire selection stored for an operand with a resolved source is a "
         "single looked-up colour; a constant literal member is recorded once (CFG); duplicate detection treats nested-bundle members like direct members (sibling-branch check). NOT decided: "
-        "that no foreign signal is present on the bundle's wire for a given program/layout, merge colouring outcomes, filter values at run time. Also: every announced scalar member of a bundle literal is delivered (must-pass over the element loop), nested merges are expanded transitively, `-b` is decided member-wise before scalar nodes are built, a defaulted constant is extracted with the symbol resolver, both decider forms (gate, filter) and both sides of a gate condition get wire separation, explicit member names pass the resolver on the name alone. A wildcard compared with a signal is separated from it (R14), bundle constants are never inlined as numbers (R15), the gating lock reaches the producers of a merged bundle (R16), wildcard rows of folded conditions get their colour (R17). No projection is folded into a bundle operation (R18), every form of `cond : bundle` builds the bundle gate (R19).",
+        "that no foreign signal is present on the bundle's wire for a given program/layout, merge colouring outcomes, filter values at run time. Also: every announced scalar member of a bundle literal is delivered (must-pass over the element loop), nested merges are expanded transitively, `-b` is decided member-wise before scalar nodes are built, a defaulted constant is extracted with the symbol resolver, both decider forms (gate, filter) and both sides of a gate condition get wire separation, explicit member names pass the resolver on the name alone. A wildcard compared with a signal is separated from it (R14), bundle constants are never inlined as numbers (R15), the gating lock reaches the producers of a merged bundle (R16), wildcard rows of folded conditions get their colour (R17). No projection is folded into a bundle operation (R18), every form of `cond : bundle` builds the bundle gate (R19). Known finding: wildcard rows of a multi-condition decider are not separated from signal rows (R20).",
    technique="table check of wildcard roles + flag-chain def-use + CFG exclusivity + sibling-branch comparison",
    ref="DESIGN.md §2 C02"),
  "C20": dict(
